@@ -38,11 +38,18 @@ mapping-list:
     types:
       - type: path
         size: 512
+  - name: zn
+    type: keyword
+  - name: zt
+    type: text
 `
 
 type e2eDoc struct {
 	Tag, KL, PL string
+	ZN          string // a small keyword field whose values include the empty string (the smallest token of the field)
 }
+
+var znValues = []string{"", "Alpha", "beta", "Omega", "", "delta", "0", "zz"}
 
 type e2eQuery struct {
 	Q      string
@@ -57,7 +64,7 @@ func e2eCases() ([]e2eDoc, []e2eQuery) {
 		"/x/" + strings.Repeat("y", 300) + "/end", p72}
 	var docs []e2eDoc
 	for i, v := range vals {
-		docs = append(docs, e2eDoc{fmt.Sprintf("t%d", i), v, v})
+		docs = append(docs, e2eDoc{fmt.Sprintf("t%d", i), v, v, znValues[i%len(znValues)]})
 	}
 	var qs []e2eQuery
 	seen := map[string]bool{}
@@ -75,6 +82,14 @@ func e2eCases() ([]e2eDoc, []e2eQuery) {
 		}
 		sort.Strings(exp)
 		qs = append(qs, e2eQuery{q, exp})
+	}
+	// the small keyword field: every value, the empty one included (case-insensitive configuration), on the keyword field
+	// and - same values - on a text field (an empty text value is indexed as the empty token as well)
+	for _, z := range znValues {
+		z := z
+		for _, f := range []string{"zn", "zt"} {
+			add(f, z, func(x e2eDoc) bool { return strings.EqualFold(x.ZN, z) })
+		}
 	}
 	for _, d := range docs {
 		v := d.KL
@@ -117,7 +132,7 @@ func e2eChild(outFile string) {
 	docs, qs := e2eCases()
 	var body bytes.Buffer
 	for _, d := range docs {
-		b, _ := json.Marshal(map[string]string{"u": d.Tag, "kl": d.KL, "pl": d.PL})
+		b, _ := json.Marshal(map[string]string{"u": d.Tag, "kl": d.KL, "pl": d.PL, "zn": d.ZN, "zt": d.ZN})
 		body.WriteString("{\"index\":{}}\n")
 		body.Write(b)
 		body.WriteByte('\n')
@@ -211,7 +226,11 @@ func (c *ctx) runE2E() {
 				if strings.HasPrefix(q.Q, "pl:") {
 					field = "path"
 				}
-				c.violate("store:search-"+st, "long-token-not-found", fmt.Sprintf("%s field with size 512, %s fraction: the query %.100s... (%d bytes) returns documents %v, the documents holding that value / leading path are %v",
+				class := "long-token-not-found"
+				if strings.HasPrefix(q.Q, "zn:") || strings.HasPrefix(q.Q, "zt:") {
+					field, class = "small keyword / text (values include the empty string)", "token-not-found"
+				}
+				c.violate("store:search-"+st, class, fmt.Sprintf("%s field, %s fraction: the query %.100s... (%d bytes) returns documents %v, the documents holding that value / leading path are %v",
 					field, st, q.Q, len(q.Q), got, q.Expect), "e2e")
 			}
 		}
